@@ -265,10 +265,14 @@ IndexFails(e) ==
   IF e.panic # "" THEN {"PANIC"} ELSE
   LET K == e.K  st == e.st
       X1 == \A i \in 1..Len(e.runs) : e.runs[i].digest = e.serial
+      \* for graphs too big to embed, the harness logs which node (if any) starts / ends with the probe k-mer and with its
+      \* reverse complement (ff, ll, fr, lr; -1 = none); the answer must be the abstract lookup over these facts
       Want(pr) == IF e.embed THEN Lookup(K, st, e.nodes, pr.k, pr.dir)
-                  ELSE IF pr.fw >= 0 THEN {<<pr.fw + 1, Opp(pr.dir), FALSE>>}
-                  ELSE IF ~st /\ pr.rv >= 0 THEN {<<pr.rv + 1, pr.dir, TRUE>>}
-                  ELSE {}
+                  ELSE IF pr.dir = "R"
+                       THEN (IF pr.ff >= 0 THEN {<<pr.ff + 1, "L", FALSE>>}
+                             ELSE IF ~st /\ pr.lr >= 0 THEN {<<pr.lr + 1, "R", TRUE>>} ELSE {})
+                       ELSE (IF pr.ll >= 0 THEN {<<pr.ll + 1, "R", FALSE>>}
+                             ELSE IF ~st /\ pr.fr >= 0 THEN {<<pr.fr + 1, "L", TRUE>>} ELSE {})
       X2 == \A i \in 1..Len(e.sample) :
               LET pr == e.sample[i] IN IF pr.ans = <<>> THEN Want(pr) = {} ELSE Want(pr) = {Tup3(pr.ans)}
       \* a k-mer is found as a node end exactly when that node starts / ends with it
